@@ -16,7 +16,10 @@ case = [entries, cwd, dirs, lines, queries]
 from __future__ import annotations
 
 import itertools
+import json
 import os
+import re
+import sys
 import shutil
 import subprocess
 import warnings
@@ -34,8 +37,8 @@ FILE_STEMS = ["x", "z", "m n", "a*b", "q?", "[k]", ".hid", "#h", "!e", "b\\s", "
 
 
 def is_src_name(name: str) -> bool:
-    i = name.rfind(".")
-    return 0 < i < len(name) - 1 and name[i:] in (
+    """the specification's notion: the extension FileLanguage computes belongs to a language"""
+    return os.path.splitext(name)[1] in (
         ".f90 .F90 .f .ftn .fpp .F .FOR .FTN .FPP .c .h .c++ .cxx .cpp .cc .hpp .hxx .h++ .hh .inc .inl .tcc .icc "
         ".ipp .cu .cuh .cl .s .S .asm").split()
 
@@ -283,6 +286,34 @@ def gen_case(rng, malformed=False):
     return [entries, cwd, roots, lines, queries]
 
 
+TREE_LINE = re.compile(r"^\[[^\]]*\] ((?:[| ] )*)([|\\])(-o|--) (.*)$")
+
+
+def parse_tree_listing(text: str, root_abs: str):
+    """file paths (relative to the root, '/'-joined) listed by cbi-tree's plain output"""
+    files = []
+    stack = []
+    seen_root = False
+    for line in text.splitlines():
+        if not seen_root:
+            if re.match(r"^\[[^\]]*\] o ", line):
+                seen_root = True
+            continue
+        m = TREE_LINE.match(line)
+        if not m:
+            continue
+        depth = len(m.group(1)) // 2 + 1
+        name = m.group(4)
+        if " -> " in name:
+            name = name.split(" -> ")[0]
+        del stack[depth - 1:]
+        if m.group(3) == "-o":
+            stack.append(name[:-1] if name.endswith("/") else name)
+        else:
+            files.append("/".join(stack + [name]))
+    return sorted(files)
+
+
 FIXED_TREE = [[["r"], "D"], [["r", "x.c"], "F"], [["r", "z.h"], "F"], [["r", "a"], "D"], [["r", "a", "x.c"], "F"],
               [["r", "a", "b"], "D"], [["r", "a", "b", "x.c"], "F"], [["r", "a", "b", "z.c"], "F"],
               [["r", "build"], "D"], [["r", "build", "z.c"], "F"], [["r", "build", "a"], "D"],
@@ -336,6 +367,7 @@ class C09(Check):
         self.q_respelled = 0
         self.q_respelled_member = 0
         self.class_hits = {1: 0, 2: 0, 3: 0}
+        self.cli_runs = 0
         self.oracle_cases = 0
         self.oracle_files = 0
         self.oracle_bad = []
@@ -372,11 +404,20 @@ class C09(Check):
             out.append(gen_case(self.rng))
         for _ in range(n_bad):
             out.append(gen_case(self.rng, malformed=True))
-        self.stats["streams"] = {"exhaustive": len(lists), "valid_random": n_valid, "malformed_random": n_bad}
+        # the enumeration observed through the command line: cbi-tree run in r/ with the first k lines
+        # given as -x options and the others in the analysis file's [codebase] exclude list
+        n_cli = 6 if quick else 70
+        for i in range(n_cli):
+            c = gen_case(self.rng, malformed=(i % 7 == 6))
+            c[1], c[2] = ["r"], ["."]
+            c.append(self.rng.randint(0, len(c[3])))
+            out.append(c)
+        self.stats["streams"] = {"exhaustive": len(lists), "valid_random": n_valid, "malformed_random": n_bad,
+                                 "command_line": 6 if quick else 70}
         return out
 
     def encode(self, case):
-        entries, cwd, dirs, lines, queries = case
+        entries, cwd, dirs, lines, queries = case[:5]
         return enc([[[p, k] for (p, k) in entries], cwd, dirs, lines, queries])
 
     # ---- implementation ----
@@ -406,7 +447,7 @@ class C09(Check):
     def impl(self, case):
         import codebasin
         from pathspec.patterns.gitwildmatch import GitWildMatchPatternError
-        entries, cwd, dirs, lines, queries = case
+        entries, cwd, dirs, lines, queries = case[:5]
         base = self.materialise(entries)
         sb = str(base)
 
@@ -433,7 +474,10 @@ class C09(Check):
                 except Exception as e:  # noqa
                     cont.append(kind_of(e))
             try:
-                got = list(cb)
+                if len(case) == 6:
+                    got = self.cli_listing(case, base)
+                else:
+                    got = list(cb)
                 it = sorted(p[len(sb):] if p.startswith(sb) else "?" + p for p in got)
                 rl = sorted({os.path.realpath(p)[len(sb):] for p in got})
             except Exception as e:  # noqa
@@ -442,6 +486,34 @@ class C09(Check):
             return ["ok", cont, it, rl]
         finally:
             os.chdir(old)
+
+    def cli_listing(self, case, base):
+        """run cbi-tree in base/r; returns the absolute paths of the files it lists (raises if it fails)"""
+        lines, k = case[3], case[5]
+        cfg = base.parent / "cfg"
+        cfg.mkdir(exist_ok=True)
+        (cfg / "cc.json").write_text("[]")
+        by_option = [l for l in lines[:k] if not l.startswith("-")]
+        by_file = [l for l in lines[:k] if l.startswith("-")] + list(lines[k:])
+        # (a line starting with '-' cannot be given to -x; it is moved to the file, which keeps the order
+        #  only if no option follows it: such cases keep everything in the file)
+        if any(l.startswith("-") for l in lines[:k]):
+            by_option, by_file = [], list(lines)
+        toml = "[codebase]\nexclude = [" + ", ".join(json.dumps(l) for l in by_file) + "]\n" \
+               + "[platform.p]\ncommands = " + json.dumps(str(cfg / "cc.json")) + "\n"
+        (cfg / "an.toml").write_text(toml)
+        args = [sys.executable, "-W", "ignore", "-m", "codebasin.tree"]
+        for l in by_option:
+            args += ["-x", l] if not l.startswith("-") else []
+        args.append(str(cfg / "an.toml"))
+        env = dict(os.environ, PYTHONPATH=str(common.REPO), COLUMNS="500")
+        pr = subprocess.run(args, cwd=base / "r", capture_output=True, text=True, env=env, timeout=120)
+        (base / "r" / "cbi.log").unlink(missing_ok=True)
+        if pr.returncode != 0:
+            raise RuntimeError("cbi-tree failed: " + pr.stderr[-300:])
+        self.cli_runs += 1
+        root_abs = str(base / "r")
+        return [root_abs + "/" + f for f in parse_tree_listing(pr.stdout, root_abs)]
 
     # ---- views ----
     @staticmethod
@@ -494,7 +566,7 @@ class C09(Check):
         self._flags[k] = (ans[6], {"/" + "/".join(p): c for (p, c) in ans[7]}, bool(ans[8]))
 
     def nontrivial(self, case, ia):
-        entries, cwd, dirs, lines, queries = case
+        entries, cwd, dirs, lines, queries = case[:5]
         if ia[0] != "ok" or not lines or isinstance(ia[3], str):
             return False
         src_under = ["/" + "/".join(p) for (p, k) in entries if k == "F" and p[0] in ("r", "r2") and is_src_name(p[-1])]
@@ -534,6 +606,8 @@ class C09(Check):
         return "dstar-dir-tail" if 3 in classes else "parent-dir-reinclude" if 1 in classes else "parent-dir-renegated"
 
     def shrink(self, case, still_fails):
+        if len(case) == 6:
+            return case
         entries, cwd, dirs, lines, queries = case
         lines = common.shrink_list(lines, lambda l: still_fails([entries, cwd, dirs, l, queries]))
         queries = common.shrink_list(queries, lambda q: still_fails([entries, cwd, dirs, lines, q]))
@@ -557,7 +631,7 @@ class C09(Check):
         self._remember(case, ans)
         if ans is None or isinstance(ans, str) or ans[0] != "ok":
             return None
-        entries, cwd, dirs, lines, queries = case
+        entries, cwd, dirs, lines, queries = case[:5]
         k = str(len(lines))
         self.hist["lines"][k] = self.hist["lines"].get(k, 0) + 1
         nl = str(sum(1 for e in entries if isinstance(e[1], list)))
@@ -690,7 +764,7 @@ class C09(Check):
         self.probe = probe
 
     def extra_coverage(self):
-        return {"unsupported_pattern_cases": self.n_unsupported, "constructor_error_cases": self.n_ctor,
+        return {"command_line_runs_cbi_tree": self.cli_runs, "unsupported_pattern_cases": self.n_unsupported, "constructor_error_cases": self.n_ctor,
                 "input_distribution": self.hist, "queries_total": self.q_total, "queries_member": self.q_member,
                 "queries_not_the_real_path": self.q_respelled, "queries_not_the_real_path_members": self.q_respelled_member,
                 "class_predicate_true_queries": self.guard_true, "class_predicate_true_and_M_differs_from_S": self.guard_true_differs,
